@@ -73,7 +73,11 @@ theorem restore_all (t : Tree) (s : St) :
     (restore t s).all = t.frontier ++ s.all ∧ D (restore t s) = D s := by
   cases t with
   | leaf c i info => simp [restore, Tree.frontier]
-  | node c ks => simp only [restore, Tree.frontier]; exact restoreRev_all ks s
+  | node c ks =>
+    simp only [restore, Tree.frontier]
+    have := restoreRev_all ks (s.ev (.ghost .abandon))
+    rw [D_ev_nondrop _ _ rfl] at this
+    exact this
 theorem restoreRev_all (ts : List Tree) (s : St) :
     (restoreRev ts s).all = frontierL ts ++ s.all ∧ D (restoreRev ts s) = D s := by
   cases ts with
@@ -511,6 +515,62 @@ theorem doHook_A {f : F} (hf : FA f) {fuel : Nat} {cfg : Cfg} {v : LoopVars} {s 
             omega
   · inj2 heq; rfl
 
+/-- `endLabelCheck` only sets the python variable `start_label` -/
+theorem endLabelCheck_rc {cfg : Cfg} {sinf : Option NodeInfo} {inf : NodeInfo} {v v2 : LoopVars}
+    {b : Bool} (h : endLabelCheck cfg sinf inf v = .ok (v2, b)) : v2.rc = v.rc := by
+  unfold endLabelCheck at h
+  split at h
+  · split at h
+    · cases h
+    · split at h
+      · cases h
+      · split at h
+        · cases h
+        · simp only [Except.ok.injEq, Prod.mk.injEq] at h
+          rw [← h.1]
+  · simp only [Except.ok.injEq, Prod.mk.injEq] at h
+    rw [← h.1]
+
+def StepSpec (t : Tree) (v : LoopVars) (s1 : St) (st : Step) (s2 : St) : Prop :=
+  match st with
+  | .abort => s2.all = frontierL (t :: v.rc).reverse ++ s1.all ∧ D s2 = D s1
+  | .raise _ => s2 = s1
+  | .done v2 => s2 = s1 ∧ v2.rc = t :: v.rc
+  | .again _ v2 => s2 = s1 ∧ v2.rc = t :: v.rc
+
+theorem abort_state_A (t : Tree) (v : LoopVars) (s1 : St) :
+    (restoreRc v.rc (restore t s1)).all = frontierL (t :: v.rc).reverse ++ s1.all ∧
+    D (restoreRc v.rc (restore t s1)) = D s1 := by
+  have h1 := restore_all t s1
+  have h2 := restoreRc_all v.rc (restore t s1)
+  refine ⟨?_, by rw [h2.2, h1.2]⟩
+  rw [h2.1, h1.1, frontierL_rev_cons]; simp
+
+theorem matchedStep_S {cfg : Cfg} {startT : Option Tree} {sn : Option (Option Name)} {i : Nat}
+    {v : LoopVars} {t : Tree} {s1 : St} {st : Step} {s2 : St}
+    (heq : matchedStep env cfg startT sn i v t s1 = (st, s2)) : StepSpec t v s1 st s2 := by
+  unfold matchedStep at heq
+  simp only at heq
+  split at heq
+  · inj2 heq; rfl
+  · inj2 heq; exact abort_state_A t v s1
+  · split at heq
+    · inj2 heq; rfl
+    · split at heq
+      · split at heq
+        · inj2 heq; rfl
+        · rename_i v2 hlab
+          have hv := endLabelCheck_rc hlab
+          split at heq
+          · inj2 heq; exact abort_state_A t v s1
+          · inj2 heq; exact ⟨rfl, hv⟩
+        · rename_i v2 hlab
+          have hv := endLabelCheck_rc hlab
+          split at heq
+          · inj2 heq; rfl
+          · inj2 heq; exact ⟨rfl, hv⟩
+      · inj2 heq; exact ⟨rfl, rfl⟩
+
 theorem matchedStep_A {cfg : Cfg} {startT : Option Tree} {sn : Option (Option Name)} {i : Nat}
     {v : LoopVars} {t : Tree} {s1 : St} {st : Step} {s2 : St}
     (heq : matchedStep env cfg startT sn i v t s1 = (st, s2)) :
@@ -519,53 +579,9 @@ theorem matchedStep_A {cfg : Cfg} {startT : Option Tree} {sn : Option (Option Na
     | .raise _ => s2 = s1
     | .done v2 => s2 = s1 ∧ v2.rc = t :: v.rc
     | .again _ v2 => s2 = s1 ∧ v2.rc = t :: v.rc := by
-  unfold matchedStep at heq
-  simp only at heq
-  split at heq
-  · inj2 heq; rfl
-  · inj2 heq
-    have h1 := restore_all t s1
-    have h2 := restoreRc_all v.rc (restore t s1)
-    refine ⟨?_, by rw [h2.2, h1.2]⟩
-    rw [h2.1, h1.1, frontierL_rev_cons]; simp
-  · split at heq
-    · inj2 heq; rfl
-    · split at heq
-      · split at heq
-        · inj2 heq; rfl
-        · rename_i v2 hlab
-          inj2 heq
-          refine ⟨rfl, ?_⟩
-          unfold endLabelCheck at hlab
-          split at hlab
-          · split at hlab
-            · cases hlab
-            · split at hlab
-              · cases hlab
-              · split at hlab
-                · cases hlab
-                · simp only [Except.ok.injEq, Prod.mk.injEq] at hlab
-                  rw [← hlab.1]
-          · simp only [Except.ok.injEq, Prod.mk.injEq] at hlab
-            rw [← hlab.1]
-        · rename_i v2 hlab
-          have hv : v2.rc = t :: v.rc := by
-            unfold endLabelCheck at hlab
-            split at hlab
-            · split at hlab
-              · cases hlab
-              · split at hlab
-                · cases hlab
-                · split at hlab
-                  · cases hlab
-                  · simp only [Except.ok.injEq, Prod.mk.injEq] at hlab
-                    rw [← hlab.1]
-            · simp only [Except.ok.injEq, Prod.mk.injEq] at hlab
-              rw [← hlab.1]
-          split at heq
-          · inj2 heq; rfl
-          · inj2 heq; exact ⟨rfl, hv⟩
-      · inj2 heq; exact ⟨rfl, rfl⟩
+  have := matchedStep_S heq
+  unfold StepSpec at this
+  cases st <;> exact this
 
 /-- what the loop of `BlockBase.match` guarantees -/
 def LoopSpec (s0 : St) (res : LoopRes) (sL : St) : Prop :=
@@ -672,7 +688,7 @@ theorem D_ghostIf_nondrop (b : Bool) (g : Ghost) (s : St) (h : isDrop (.ghost g)
 
 @[simp] theorem D_enterState (tn : Option Name) (s : St) : D (enterState tn s) = D s := by
   unfold enterState; split
-  · rw [D_ghostIf_nondrop _ _ _ rfl, D_enter]
+  · rw [D_ghostIf_nondrop _ _ _ rfl, D_enter, D_ghostIf_nondrop _ _ _ rfl]
   · rfl
 
 theorem D_condExit (b : Bool) (s : St) : D (condExit b s).2 = D s := by
@@ -1018,18 +1034,20 @@ theorem MRel.shift' {s0 : St} {r : MRes} {s' s'' : St} (h : MRel s0 r s') (e : s
 theorem main0Match_A {f : F} (hf : FA f) {fuel : Nat} {cfg : Cfg} {scope : Name} {s : St}
     {r : MRes} {s' : St} (heq : main0Match env f fuel cfg scope s = (r, s')) (hD : D s' = D s) :
     MRel s r s' := by
-  unfold main0Match at heq
-  generalize hb : blockMatch env f fuel cfg (s.enter scope) = br at heq
-  obtain ⟨r0, s2⟩ := br
-  have lb : LogExt (s.enter scope) s2 := by
-    have := blockMatch_rel (L env) hf.log fuel cfg (s.enter scope); rw [hb] at this; exact this
-  have mb := D_mono lb
   have lall : LogExt s s' := by
     have := main0Match_rel (L env) hf.log fuel cfg scope s
-    unfold main0Match at this; rw [hb] at this
-    simp only at heq this
     rw [heq] at this; exact this
-  have de : D (s.enter scope) = D s := D_enter _ _
+  unfold main0Match at heq
+  have dsp : D (ghostIf (s.sym.clashes scope) Ghost.nameClash s) = D s :=
+    D_ghostIf_nondrop _ _ _ rfl
+  have asp : (ghostIf (s.sym.clashes scope) Ghost.nameClash s).all = s.all := ghostIf_all _ _ _
+  generalize ghostIf (s.sym.clashes scope) Ghost.nameClash s = sp at heq dsp asp
+  generalize hb : blockMatch env f fuel cfg (sp.enter scope) = br at heq
+  obtain ⟨r0, s2⟩ := br
+  have lb : LogExt (sp.enter scope) s2 := by
+    have := blockMatch_rel (L env) hf.log fuel cfg (sp.enter scope); rw [hb] at this; exact this
+  have mb := D_mono lb
+  have de : D (sp.enter scope) = D s := by rw [D_enter, dsp]
   -- every continuation only performs exit/remove/ghost(main0Leak): D and `all` are those of s2
   have hx : ∀ s3, s2.exit = (true, s3) ∨ s2.exit = (false, s3) → D s3 = D s2 ∧ s3.all = s2.all := by
     intro s3 h
@@ -1096,7 +1114,7 @@ theorem main0Match_A {f : F} (hf : FA f) {fuel : Nat} {cfg : Cfg} {scope : Name}
         exact ⟨h3.1, h3.2, Or.inl rfl⟩
   obtain ⟨kd, ka, kr⟩ := key
   have hbm := blockMatch_A hf hb (by omega)
-  have hbm' : MRel s r0 s2 := hbm.shift (St.enter_all s scope)
+  have hbm' : MRel s r0 s2 := hbm.shift (by rw [St.enter_all, asp])
   rcases kr with rfl | rfl
   · exact hbm'.shift' ka
   · trivial
